@@ -239,7 +239,7 @@ def shape(root, plan):
 
 
 def run(ctx):
-    monitors.install(ctx)
+    monitors.install(ctx, tokalg=False)
     rng = ctx.rng
     n = 250 if ctx.quick else 4000
     for case in range(n):
